@@ -105,6 +105,19 @@ def _expect_abort(res, codes, idx, sub, tag):
 
 def _pre(cli, rig, pre):
     WRITTEN.clear()
+    if pre == "other-node":
+        # another local node of the same process (same dictionary layout, another id) has had every writable entry
+        # written: that is its business alone
+        rig2 = ServerRig(build_od(), 3)
+        cli2 = RefClient(rig2.deliver, "C06")
+        for index, kind, members in SPEC:
+            for s_, dt, acc, dv in members:
+                if acc in ("rw", "wo"):
+                    w = _numeric_width(dt) or 3
+                    r = cli2.download(index, s_, [0x11] * w, "exp-size" if w <= 4 else "seg-size")
+                    sx.prove(r is None, "write on the other node failed", "C06/history/pre-other-node")
+        sx.prove(len(rig.store_snapshot()) == 0, "a node that was never written holds values", "C06/other-node/store")
+        sx.reach("other-node")
     if pre == "siblings":
         WRITTEN.update({(0x2020, 1), (0x2030, 1)})
     if pre == "upload":
@@ -436,7 +449,7 @@ def client_abort(op, at):
 
 def jobs(tier):
     out = []
-    pres = ("none", "upload", "download", "siblings", "open-download")
+    pres = ("none", "upload", "download", "siblings", "open-download", "other-node")
     for pre in pres:
         for scope in ("var", "sub"):
             out.append(dict(func="refuse_read", params=dict(scope=scope, pre=pre), weight=20))
@@ -484,7 +497,7 @@ META = dict(
                     "sub-index != 0 on VAR objects", "refusals by the *server under test* in the middle of block transfers (it does not implement them); the client side is covered"],
     assumptions=["abort code for 'no value' as the repo's suite expects (0x060A0023)"],
     stubs=["struct", "bytes/bytearray", "dict displays -> SymDict", "queue", "logging"],
-    required_reach=["read-missing-index", "read-missing-sub", "read-wo", "read-no-value", "read-ok",
+    required_reach=["other-node", "read-missing-index", "read-missing-sub", "read-wo", "read-no-value", "read-ok",
                     "write-missing-index", "write-missing-sub", "write-ro", "write-length", "write-ok",
                     "toggle-upload", "toggle-download", "unknown-ccs7", "unknown-block", "client-abort"],
     limits=dict(quick=dict(max_decisions=20000), thorough=dict(max_decisions=20000, crosscheck_every=20, crosscheck_max=20)),
